@@ -207,5 +207,20 @@ CHECKS["C15"] = {
     "level_note": "The in-memory network stands in for TCP (refused / EOF / RST are modelled as errors of the same class); a dial that hangs is outside the listed classes (the transport has no dial timeout).",
 }
 
+CHECKS["C19"] = {
+    "level": "exploration",
+    "rule": "1-5 raw requests per case (6 methods, paths with encoded octets and multi-byte, 14 raw queries, 0-6 headers, own or generated "
+            "request id, response sizes 0-100 kB, 5 statuses) each with a drawn ending: served, 404, held-then-504 by a paused service, "
+            "stopped 503, https redirect, TLS refused, target reset (502), target silent (504), 413, response overflow (500), client "
+            "abort (499), upgrade (101), event stream; 4 request and 4 response header lists to log (mixed case, absent headers); "
+            "sent through Server.buildHandler() with the logger captured; oracle: exactly one 'Request' record per request, emitted "
+            "after it ended, whose status / method / host / path / query / request id / service / target / resp_content_length / "
+            "req_* / resp_* equal what the client and the target observed. Non-trivial = an ending other than 'served'. Distinct by plan hash.",
+    "layers": [L("TestVF_C19", 800, 10000)],
+    "technique": "property-based testing (rapid): generated requests x endings through the full middleware chain; join of captured log records with client and target observations",
+    "level_text": "Bounded random exploration over endings x requests; the log is captured at slog level (the same records the JSON handler would print).",
+    "level_note": "Trusts the harness world; HEAD requests and HTTP/2 are outside this check.",
+}
+
 ALL_IDS = ["C%02d" % i for i in range(1, 21)]
 NOT_APPLICABLE = {pid: "check not built yet (work in progress; see DESIGN.md section 8 for the order of work)" for pid in ALL_IDS if pid not in CHECKS}
